@@ -40,6 +40,8 @@ type harness struct {
 	// the environment form of a table entry does not make the entry undecidable
 	listDefectsAbsent bool
 	sampled           int
+
+	validFiles map[string]bool // unquotedValues: file part -> accepted by the schema
 }
 
 // calibrate loads a tiny catalogue completely from the environment many times: several variables per
@@ -750,11 +752,21 @@ func TestC20(t *testing.T) {
 		"names crypto/tls has for them, TLS versions, log levels and formats, span processors, CORS methods, cache types, OAuth2 client authentication methods, api key " +
 		"locations, scope matching strategies, redirect codes) incl. other spellings and unknown values where the loader checks the value itself. Lists with more than " +
 		"ten elements are given by the environment (completely, as override of one element of the file, as continuation of the file) with the indices in the " +
-		"variable names written plainly, zero-padded to two and three digits and with a width chosen per variable; all spellings must give the all-file result. Loads whose inputs contain a trigger of one of the two list defects are " +
+		"variable names written plainly, zero-padded to two and three digits and with a width chosen per variable; all spellings must give the all-file result. " +
+		"Value shapes: every option holding an address or address range (trusted_proxies), a Duration or a ByteSize gets every class of valid values of that type (IPv4/IPv6 " +
+		"addresses in all notations, ranges with prefix lengths up to /32 and /128, every unit with numbers of one to six digits; valid = net.ParseIP/ParseCIDR resp. the " +
+		"documented patterns) from a file and from the environment: the schema must accept the file and both must load the value the harness computes; URLs with ports, user " +
+		"info, IPv6 hosts, queries and fragments go through the equivalence table on the mechanisms' endpoint options. Unquoted values: every string option of the static " +
+		"configuration (found by walking the Configuration type) and string options of mechanisms get texts that a YAML parser reads as integer, float, boolean, null or as " +
+		"another string, unquoted as value of the environment variable (with the option absent from the file and over another value in the file), compared with the file " +
+		"holding the same text. Environment prefix: generated configurations are loaded (all-env and split) under prefixes in upper, lower and mixed case, with digits and " +
+		"underscores, without trailing underscore and one starting with another, while the environment also holds decoy variables under look-alike prefixes with other values; " +
+		"the result must equal the all-file load. Loads whose inputs contain a trigger of one of the two list defects are " +
 		"classified separately (class with-list-defect-trigger); all other loads are compared strictly. A load is non-trivial when it has environment " +
 		"variables and either a file part or at least three variables.")
 	r.Assume("free-form map keys (header names, values) are generated lower case: the environment naming rules cannot express upper case keys",
-		"string values are written as YAML scalars of the same text in file and environment (quoted where YAML would otherwise read another type)",
+		"string values are written as YAML scalars of the same text in file and environment (quoted where YAML would otherwise read another type); the part 'unquoted values' "+
+			"gives the plain text instead, as one writes the value of an environment variable",
 		"'$' does not occur in values (the file is subject to ${var} substitution by design)",
 		"cache back ends and rule providers are not started: their sections are compared as configuration values only; of the cache only the type is checked "+
 			"against the factory registry the application uses at start-up",
@@ -783,6 +795,9 @@ func TestC20(t *testing.T) {
 		h.runTable()
 		h.emptyOverrides()
 		h.indexSpellings()
+		h.valueShapes()
+		h.unquotedValues()
+		h.envPrefixes()
 		n := r.Pick(70, 1500)
 		rng := r.Stream("configs")
 		for i := 0; i < n; i++ {
@@ -799,6 +814,9 @@ func TestC20(t *testing.T) {
 	r.Require("table_entries_decided", r.Counter("table_entries_decided"), 200)
 	r.Require("table_entries_enumerated_values", r.Counter("table_entries_enumerated_values"), 100)
 	r.Require("index_spelling_loads_plain_decimal", r.Counter("index_spelling_loads_plain_decimal"), 30)
+	r.Require("value_shape_cases", r.Counter("value_shape_cases"), 500)
+	r.Require("unquoted_value_loads", r.Counter("unquoted_value_loads"), 60)
+	r.Require("env_prefix_loads_with_lower_case_letters_in_prefix", r.Counter("env_prefix_loads_with_lower_case_letters_in_prefix"), 12)
 	if bad, tot := r.Counter("generated_configurations_not_usable_from_file"), r.Counter("configurations"); bad*10 > tot+bad {
 		r.Inconclusive(fmt.Sprintf("%d of %d generated configurations are not usable from a file (generator or validator out of step)", bad, bad+tot))
 	}
